@@ -345,6 +345,9 @@ namespace AIToolbox {
         const size_t alphasSize = std::distance(alphasBegin, alphasEnd);
         if (alphasSize == 0) return vertices;
         const size_t S = std::invoke(p2, *alphasBegin).size();
+        // With a single state the simplex is one point, and it is a corner: we
+        // do not report corners (and there are no S-1 planes to intersect).
+        if (S == 1) return vertices;
 
         // This enumerator allows us to compute all possible subsets of S-1
         // elements. We use it on both the alphas, and the boundaries, thus the
